@@ -1383,4 +1383,11 @@ class _CompiledImporter:
             return ExcelOpxWrapper.RangeData(address, cell_value, None)
 
         else:
+            # the loader's scalars are subclasses which remember their layout
+            # in the file, the model holds builtin values as the saved one did
+            for builtin in (bool, int, float, str):
+                if isinstance(cell_value, builtin):
+                    if type(cell_value) is not builtin:
+                        cell_value = builtin(cell_value)
+                    break
             return ExcelOpxWrapper.RangeData(address, '', cell_value)
